@@ -759,7 +759,7 @@ def unquoted_class_agrees(repo):
         tset, pset, ", not: %s" % missing if missing else "")
 
 
-def parser_details(repo, rep, rule="R03.3"):
+def parser_details(repo, rep, rule="R03.3", slash=False):
     """Value-level obligations of the tag parser:
     * white space in the tag patterns is any white space, and a lazy
       white-space repeat never hands blanks to a captured field;
@@ -802,10 +802,14 @@ def parser_details(repo, rep, rule="R03.3"):
                             alt[1][1][0] == 1 and rx.all_chars(
                                 alt[1][1][1]) == rx.CharSet.of(">"):
                         ok = True
-    rep.check(ok, rule, "chameleon.parser.match_single_attribute", "a '/' "
-              "belongs to an unquoted attribute value unless a '>' follows "
-              "it (href=/a/b is one value; <br class=x/> ends the tag)",
-              construct="slash-not-before-gt")
+    # (a statement-free tag renders the same either way -- text the
+    # attribute pattern leaves over is kept --; what a dynamic value
+    # replaces differs: the obligation is C07's)
+    if slash:
+        rep.check(ok, rule, "chameleon.parser.match_single_attribute", "a '/' "
+                  "belongs to an unquoted attribute value unless a '>' "
+                  "follows it (href=/a/b is one value; <br class=x/> ends "
+                  "the tag)", construct="slash-not-before-gt")
     idf = repo.func(PARSER + ".identify")
     bad = []
     n = 0
